@@ -299,6 +299,10 @@ class Model:
             self.files[rel] = FileInfo(root, rel)
         if "nsl/parser.py" not in self.files:
             raise AnchorMissing("nsl/parser.py not found under " + root)
+        # canon C12 (whole-program): options added by a change that no call site uses are their defaults
+        from .optfold import fold_unused_options
+
+        self.options_folded = fold_unused_options({rel: fi.tree for rel, fi in self.files.items()})
         self.modules = {fi.module: fi for fi in self.files.values()}
         self.classes: Dict[Tuple[str, str], ClassInfo] = {}
         for fi in self.files.values():
